@@ -1379,6 +1379,9 @@ func main() {
 	if all || sections["shared"] {
 		sharedSection()
 	}
+	if all || sections["oneofhist"] {
+		oneofHistorySection()
+	}
 	keys := make([]string, 0, len(stats))
 	for k := range stats {
 		keys = append(keys, k)
